@@ -121,7 +121,8 @@ type undoRec struct {
 }
 
 type Engine struct {
-	lockBusy bool // see verifLockBusy
+	lockBusy bool  // see verifLockBusy
+	onLock   value // see verifOnLock
 	sh      *Shared
 	prog    *ssa.Program
 	sol     *Solver
@@ -782,6 +783,7 @@ func (e *Engine) runPath(entry *ssa.Function) {
 	e.schedForks = 0
 	e.schedOff = false
 	e.lockBusy = false
+	e.onLock = nil
 	e.permOff = false
 	e.permForks = 0
 	e.sol.Push()
